@@ -225,5 +225,5 @@ func vh_C04_L1_snap_tokens() {
 }
 
 // C13.L3: negotiation direction of zero checksums is part of the handshake obligations.
-func vh_C13_L3_negotiation_direction_snap() { vh_C04_L1_snap_tokens() }
+func vh_C13_L3_negotiation_direction_snap()      { vh_C04_L1_snap_tokens() }
 func vh_C13_L3_negotiation_direction_handshake() { vh_C04_L1_client_server() }
